@@ -28,7 +28,7 @@ import random
 import time
 
 from .. import gen, views
-from ..c12_common import quiet, flat_obs, diff_obs, fmt_diff, run_tasks
+from ..c12_common import quiet, flat_obs, diff_obs, fmt_diff, run_tasks, collect_failures
 from ..oracle_lp import LP
 
 KNOWN_KEYS = set()
@@ -112,19 +112,29 @@ def oracle(m, cons):
     return True, free
 
 
+HAND_SPECS = [["hand", "cycle", fl] for fl in FLAVOURS] + [["hand", "chain_rev", "cons"], ["hand", "chain_rev", "homogeneous"]]
+
+
 def model_specs(tier, seed):
+    """-> (fixed specs: hand-made, the same for every seed; seeded specs: random models drawn from the seed)"""
     per = 4 if tier == "quick" else 12
-    specs = [["hand", "cycle", "homogeneous"], ["hand", "cycle", "all"], ["hand", "chain_rev", "cons"]]
+    fixed = []
+    for spec in HAND_SPECS:
+        m, cons = build(spec)
+        ok, free = oracle(m, cons)
+        if ok and free >= 2:
+            fixed.append(spec)
+    seeded = []
     for fl in FLAVOURS:
         got, k = 0, seed * 1000
         while got < per and k < seed * 1000 + 400:
             m, cons = build(["rnd", k, fl])
             ok, free = oracle(m, cons)
             if ok and free >= 2:
-                specs.append(["rnd", k, fl])
+                seeded.append(["rnd", k, fl])
                 got += 1
             k += 1
-    return specs
+    return fixed, seeded
 
 
 # ------------------------------------------------------------------------------------------------ independent checks
@@ -335,21 +345,33 @@ def _run_task(task):
     return task, f, info
 
 
+COMBOS = {"quick": [(1, 1), (4, 2), (7, 5), (12, 1)], "thorough": [(1, 1), (2, 1), (4, 2), (7, 5), (12, 1), (25, 10), (40, 3)]}
+FIXED_SAMPLER_SEEDS = {"quick": [1, 2, 3], "thorough": [1, 2, 3, 4, 5, 6]}
+
+
 def tasks_for(tier, seed):
-    specs = model_specs(tier, seed)
+    """FIXED part: hand-made models x methods x (n, thinning) x fixed sampler seeds, nproj a fixed function of the case;
+    SEEDED part: random models, sampler seeds and nproj drawn from the seed."""
+    fixed, seeded = model_specs(tier, seed)
     rng = random.Random(f"C16-run-{seed}")
-    combos = [(1, 1), (4, 2), (7, 5), (12, 1)] if tier == "quick" else [(1, 1), (2, 1), (4, 2), (7, 5), (12, 1), (25, 10), (40, 3)]
-    seeds = [seed * 7 + 1, seed * 7 + 2, seed * 7 + 3] if tier == "quick" else [seed * 7 + i for i in range(1, 7)]
+    sseeds = [1000 + seed * 7 + i for i in (1, 2, 3)] if tier == "quick" else [1000 + seed * 7 + i for i in range(1, 7)]
     tasks = []
-    for spec in specs:
-        for method, procs in (("achr", 1), ("optgp", 1), ("optgp", 2)):
-            for n, th in combos:
-                for sd in seeds:
-                    if procs == 2 and tier == "quick" and (n, th) in ((1, 1), (12, 1)) and sd != seeds[0]:
-                        continue
-                    tasks.append({"model": spec, "method": method, "processes": procs, "n": n, "thinning": th, "seed": sd,
-                                  "nproj": rng.choice([None, 1, 3, 7])})
-    return tasks, specs
+    for part, specs, seeds in ((True, fixed, FIXED_SAMPLER_SEEDS[tier]), (False, seeded, sseeds)):
+        for spec in specs:
+            for method, procs in (("achr", 1), ("optgp", 1), ("optgp", 2)):
+                for n, th in COMBOS[tier]:
+                    for sd in seeds:
+                        if procs == 2 and tier == "quick" and (n, th) in ((1, 1), (12, 1)) and sd != seeds[0]:
+                            continue
+                        nproj = [None, 1, 3, 7][(n + th + sd) % 4] if part else rng.choice([None, 1, 3, 7])
+                        tasks.append({"model": spec, "method": method, "processes": procs, "n": n, "thinning": th, "seed": sd,
+                                      "nproj": nproj, "fixed": part})
+    return tasks, fixed + seeded
+
+
+def witness(task):
+    return (f"{':'.join(task['model'])}|{task['method']}|p{task['processes']}|n{task['n']}|t{task['thinning']}|s{task['seed']}"
+            f"|nproj{task['nproj']}")
 
 
 def execute(tasks, tier="quick", seed=0):
@@ -357,30 +379,22 @@ def execute(tasks, tier="quick", seed=0):
     random.Random(seed).shuffle(order)
     shuffled = [tasks[i] for i in order]
     res = run_tasks(_run_task, shuffled, nproc=16, task_timeout=240 if tier == "quick" else 900)
-    failures, counts = {}, {}
+    items = []
     rows = 0
     nontrivial = 0
     raised = {}
     for task, (status, val) in zip(shuffled, res):
         if status != "ok":
-            k = f"{task['method']}:{status}"
-            counts[k] = counts.get(k, 0) + 1
-            failures.setdefault(k, (f"task {task} ended with {status}: {val}", task))
-            continue
-        _, f, info = val
-        rows += info["rows"]
-        if info["outcome"] == "returned":
-            nontrivial += 1
+            f = {f"{task['method']}:{status}": f"task {task} ended with {status}: {val}"}
         else:
-            raised[info["outcome"]] = raised.get(info["outcome"], 0) + 1
-        for k, text in f.items():
-            counts[k] = counts.get(k, 0) + 1
-            cur = failures.get(k)
-            if cur is None or task["n"] * task["thinning"] < cur[1]["n"] * cur[1]["thinning"]:
-                failures[k] = (text, task)
-    out_f = [{"key": k, "failure": f"{text} [{counts[k]} case(s) with this key]", "replay": dict(task, key=k)}
-             for k, (text, task) in sorted(failures.items())]
-    return out_f, len(res), nontrivial, {"rows_checked": rows, "raised": raised}
+            _, f, info = val
+            rows += info["rows"]
+            if info["outcome"] == "returned":
+                nontrivial += 1
+            else:
+                raised[info["outcome"]] = raised.get(info["outcome"], 0) + 1
+        items.append((task["fixed"], witness(task), {k: v for k, v in task.items() if k != "fixed"}, f))
+    return collect_failures(items), len(res), nontrivial, {"rows_checked": rows, "raised": raised}
 
 
 def run(tier="quick", seed=0):
@@ -395,12 +409,13 @@ def run(tier="quick", seed=0):
         "rule": "case = (model, method, processes, n, thinning, seed, nproj): sample() twice + two sampler objects sampled twice "
                 "in both spaces + validate(); every returned row is checked; distinct by construction; non-trivial = the "
                 "samplers returned samples (models are pre-selected by the exact oracle: feasible, >= 2 reactions with a "
-                "non-degenerate range)",
+                "non-degenerate range). Fixed part: hand-made models with fixed sampler seeds - every failing witness reported; "
+                "seeded part: random models / sampler seeds drawn from the seed - one entry per class, witness random:<class>",
         "bounds": dict({"models": len(specs), "flavours": list(FLAVOURS), "metabolites": "2-4", "reactions": "3-6 + exchanges",
                         "n": sorted({t["n"] for t in tasks}), "thinning": sorted({t["thinning"] for t in tasks}),
                         "nproj": [None, 1, 3, 7], "processes": [1, 2], "seconds": round(time.time() - t0, 1)}, **extra),
         "exhaustive": False,
-        "samples": [tasks[0], tasks[len(tasks) // 2], tasks[-1]],
+        "samples": [{k: v for k, v in tasks[i].items() if k != "fixed"} for i in (0, len(tasks) // 2, len(tasks) - 1)],
         "failures": out_f,
     }
 
